@@ -145,3 +145,139 @@ SPECS = {
     "C10": [spec_verify_num_args],
     "C02": [spec_needs_more_vals, spec_verify_num_args],
 }
+
+
+# ------------------------------------------------------------------ C20: the line filler's loop body
+
+def spec_line_wrapper_step(fns, consts):
+    """LineWrapper::wrap is a loop over words; its BODY is loop-free.  One iteration from an
+    arbitrary state (i, line_width, hard_width, carry-over) is compared with the reference step:
+        break   := i != 0 && hard_width < line_width + width(trimmed word)
+        width'  := (break ? len(carry-over indent or "") : line_width) + width(trimmed) + trailing-space count
+        i'      := i + 1 + (break ? 1 + (carry-over present ? 1 : 0) : 0)
+    i.e. the running width restarts from the re-emitted indent after a break and otherwise grows."""
+    con = contracts.Contracts(fns, default_pure=True)
+    ctx = symex.Ctx(consts, con)
+    fn = _find(fns, "textwrap/wrap_algorithms.rs", "wrap")
+    i_local = fn.debug.get("i")
+    if not i_local:
+        raise Unsupported("LineWrapper::wrap: no local `i`")
+    init = [b for b, blk in fn.blocks.items() if any(re.match(rf"^{i_local} = const 0_usize;?$", s) for s in blk["stmts"])]
+    if len(init) != 1:
+        raise Unsupported("LineWrapper::wrap: initialisation of `i` not found")
+    g = [s for s in fn.blocks[init[0]]["stmts"] if s.startswith("goto -> ")]
+    if not g:
+        raise Unsupported("LineWrapper::wrap: loop header not found")
+    header = re.match(r"goto -> (bb\d+)", g[0]).group(1)
+    # follow the header to its switchInt: otherwise-target is the body
+    b, body = header, None
+    for _ in range(6):
+        last = fn.blocks[b]["stmts"][-1]
+        m = re.match(r"^switchInt\(.*\) -> \[0: (bb\d+), otherwise: (bb\d+)\];?$", last)
+        if m:
+            body = m.group(2)
+            break
+        m = re.search(r"return: (bb\d+)", last)
+        if not m:
+            break
+        b = m.group(1)
+    if not body:
+        raise Unsupported("LineWrapper::wrap: loop condition not found")
+    i_in = ("bv", ctx.sym("i", "(_ BitVec 64)"), 64)
+    ex = symex.Exec(ctx, fn, [("opq", "self"), ("opq", "words")]).run(start=body, stop_at=header, env={i_local: i_in})
+    B48 = "(_ bv%d 64)" % (1 << 48)
+    hw = _key_sym(ctx, r"^self\.0$", "(_ BitVec 64)")
+    lw = _key_sym(ctx, r"^self\.1$", "(_ BitVec 64)")
+    w = _key_sym(ctx, r"^display_width\(.*trim_end\(", "(_ BitVec 64)")
+    lens = [k for k in ctx.keys if re.match(r"^core::str::<impl str>::len\(", k)]
+    l_trim = [k for k in lens if "trim_end(" in k]
+    l_carry = [k for k in lens if "self.2" in k]
+    l_word = [k for k in lens if k not in l_trim and k not in l_carry]
+    if len(l_trim) != 1 or len(l_word) != 1 or len(l_carry) != 1:
+        raise Unsupported(f"LineWrapper::wrap: unexpected str::len calls {lens}")
+    lt, lword, lc = ctx.keys[l_trim[0]], ctx.keys[l_word[0]], ctx.keys[l_carry[0]]
+    disc = _key_sym(ctx, r"^discr\(self\.2\)$", "(_ BitVec 64)")
+    for t, smt in [("len(trim_end(word)) <= len(word) (std)", f"(bvule {lt} {lword})"), ("len(word) < 2^48", f"(bvult {lword} {B48})"),
+                   ("line_width < 2^48", f"(bvult {lw} {B48})"), ("i < 2^48", f"(bvult {i_in[1]} {B48})"), ("len(carry-over) < 2^48", f"(bvult {lc} {B48})"),
+                   ("Option discriminant is 0 or 1", f"(or (= {disc} (_ bv0 64)) (= {disc} (_ bv1 64)))")]:
+        ctx.assume(t, smt)
+    brk = f"(and (not (= {i_in[1]} (_ bv0 64))) (bvult {hw} (bvadd {lw} {w})))"
+    has_c = f"(= {disc} (_ bv1 64))"
+    d = f"(bvsub {lword} {lt})"
+    spec_lw = f"(bvadd (ite {brk} (ite {has_c} {lc} (_ bv0 64)) {lw}) (bvadd {w} {d}))"
+    spec_i = f"(bvadd {i_in[1]} (ite {brk} (ite {has_c} (_ bv3 64) (_ bv2 64)) (_ bv1 64)))"
+    obs = list(ex.obligations)
+    lw_place = [k for k in (ex.stops[0][1] if ex.stops else {}) if k.startswith("place:") and k.endswith(".1: usize)")]
+    if len(lw_place) != 1:
+        raise Unsupported("LineWrapper::wrap: store to self.line_width not found on the loop path")
+    for pc, env in ex.stops:
+        out_lw, out_i = env[lw_place[0]], env[i_local]
+        obs.append({"fn": fn.name, "block": "body", "kind": "spec", "target": "line_wrapper_step", "msg": "line_width after one word = reference step (indent re-counted after a break)",
+                    "pc": list(pc), "neg": f"(not (= {out_lw[1]} {spec_lw}))"})
+        obs.append({"fn": fn.name, "block": "body", "kind": "spec", "target": "line_wrapper_step", "msg": "index advances past the inserted break and indent",
+                    "pc": list(pc), "neg": f"(not (= {out_i[1]} {spec_i}))"})
+    for o in obs:
+        o.setdefault("target", "line_wrapper_step")
+    return ctx, obs, [{"function": fn.name + f" [loop body {body}..{header}]", "mir_line": fn.line, "mir_blocks": len(fn.blocks),
+                       "obligations": len(obs), "return_paths": len(ex.stops)}], con
+
+
+SPECS["C20"] = [spec_line_wrapper_step]
+
+
+# ------------------------------------------------------------------ C04: typed access
+
+def spec_typed_remove(fns, consts):
+    """ArgMatches::try_remove_arg_t: the type-id check decides, and a failed (wrong type) remove puts
+    the entry back before reporting the error."""
+    con = contracts.Contracts(fns, default_pure=True)
+    ctx = symex.Ctx(consts, con)
+    fn = _find(fns, "parser/matches/arg_matches.rs", "try_remove_arg_t")
+    ex = symex.Exec(ctx, fn, [("opq", "self"), ("opq", "id")]).run()
+    eq = _key_sym(ctx, r"^<AnyValueId as PartialEq>::eq\(", "Bool")
+    obs = list(ex.obligations)
+    n_err_after_remove = 0
+    for (pc, val), calls in zip(ex.returns, ex.return_calls):
+        if val[0] != "enum":
+            raise Unsupported("try_remove_arg_t: unexpected return shape")
+        removed = [i for i, c in enumerate(calls) if re.search(r"FlatMap::<.*>::(remove_entry|remove)(::<.*>)?$", c)]
+        reinserted = [i for i, c in enumerate(calls) if re.search(r"FlatMap::<.*>::(insert|insert_unchecked)$", c)]
+        took_type_check = any(re.search(r"AnyValueId as PartialEq>::(eq|ne)$", c) for c in calls)
+        if val[1] == "Err" and removed and took_type_check:
+            n_err_after_remove += 1
+            ok = bool(reinserted) and reinserted[-1] > removed[-1]
+            # a path that reports the type error without re-inserting must be infeasible
+            obs.append({"fn": fn.name, "block": "ret", "kind": "spec", "target": "typed_remove", "msg": "Err(Downcast) after remove_entry => the entry was inserted back",
+                        "pc": list(pc), "neg": "false" if ok else "true"})
+            obs.append({"fn": fn.name, "block": "ret", "kind": "spec", "target": "typed_remove", "msg": "Err(Downcast) only when the stored type differs from the requested one",
+                        "pc": list(pc), "neg": eq})
+        if val[1] == "Ok" and val[2] is not None and val[2][0] == "enum" and val[2][1] == "Some":
+            obs.append({"fn": fn.name, "block": "ret", "kind": "spec", "target": "typed_remove", "msg": "Ok(Some(values)) only when the stored type equals the requested one",
+                        "pc": list(pc), "neg": f"(not {eq})"})
+            if reinserted:
+                raise Unsupported("try_remove_arg_t: successful remove re-inserts?")
+    if n_err_after_remove == 0:
+        raise Unsupported("try_remove_arg_t: no error path after the removal was found")
+    for o in obs:
+        o.setdefault("target", "typed_remove")
+    return ctx, obs, [_enc(fn, ex, 0)], con
+
+
+def spec_verify_arg_t(fns, consts):
+    con = contracts.Contracts(fns, default_pure=True)
+    ctx = symex.Ctx(consts, con)
+    fn = _find(fns, "parser/matches/arg_matches.rs", "verify_arg_t")
+    ex = symex.Exec(ctx, fn, [("opq", "self"), ("opq", "arg")]).run()
+    eq = _key_sym(ctx, r"^<AnyValueId as PartialEq>::eq\(", "Bool")
+    obs = list(ex.obligations)
+    for pc, val in ex.returns:
+        if val[0] != "enum":
+            raise Unsupported("verify_arg_t: unexpected return shape")
+        obs.append({"fn": fn.name, "block": "ret", "kind": "spec", "target": "typed_get", "msg": "typed get: Ok <=> stored type equals requested type",
+                    "pc": list(pc), "neg": f"(not {eq})" if val[1] == "Ok" else eq})
+    for o in obs:
+        o.setdefault("target", "typed_get")
+    return ctx, obs, [_enc(fn, ex, len(ex.returns))], con
+
+
+SPECS["C04"] = [spec_typed_remove, spec_verify_arg_t]
